@@ -89,7 +89,8 @@ pub fn write_shards(dir: &Path, module: &str, runner: &str, cases: &[String], sh
             let _ = fs::remove_file(e.path());
         }
     }
-    let shards = shards.max(1).min(cases.len().max(1));
+    // at least `shards` files, and never more than 40 cases in one (coqc time grows with the file)
+    let shards = shards.max((cases.len() + 39) / 40).max(1).min(cases.len().max(1));
     let per = (cases.len() + shards - 1) / shards.max(1);
     let mut written = 0;
     for s in 0..shards {
